@@ -14,6 +14,8 @@ def bound_of(atom):
 
 
 def run(chk, repo, tier):
+    from .common import no_hidden_state
+    no_hidden_state(chk, repo, 'C12')
     chk.clause('C12-a', 'every internal call in zernike.py binds normalize/rho/theta/modes/mask to the like-named parameter', 8)
     chk.clause('C12-b', 'the removed component is synthesised from the fitted mode set (depends on `modes` beyond the coefficients)', 1)
     chk.clause('C12-c', 'analysis and synthesis in zernike_remove use the same normalisation and coordinates', 2)
@@ -55,6 +57,11 @@ def run(chk, repo, tier):
            f'removed component = {fmt(synth)}: ' + ('mentions `modes`' if dep else
            'does not depend on `modes` except through the coefficients - the coefficients are re-composed as '
            'modes 1..k whatever was fitted'), frem.loc(p.node))
+    direct = synth is not None and ('sym', 'opd') in nf.value_atoms(synth)
+    chk.ob('C12-b', 'D-must-not-depend', frem.key, 'residual = opd - synthesis (the OPD itself is passed through unchanged)',
+           synth is not None and not direct,
+           f'opd - residual = {fmt(synth)[:200]}' + (' still contains the OPD itself: the part that is not in the fitted modes is altered'
+                                                     if direct else ''), frem.loc(p.node))
     # C12-c: agreement of (normalize, rho, theta) between all zernike calls, and with the caller's own
     zcalls = [e for e in p.events if e.kind == 'call' and e.depth == 0
               and str(e.data.get('callee', '')).startswith('zernike.zernike')]
